@@ -55,6 +55,9 @@ def main():
             continue
         try:
             for pid in props:
+                # evidence files must describe runs on the unchanged tree: keep the committed one
+                evp = os.path.join(ROOT, 'evidence', pid + '.json')
+                saved = open(evp).read() if os.path.exists(evp) else None
                 t0 = time.time()
                 try:
                     rc, out = sh([os.path.join(ROOT, 'check'), pid, '--tier', tier], cwd=ROOT, timeout=3600)
@@ -74,6 +77,9 @@ def main():
                 verdict = 'DETECTED' if (rc == 1 and viol) else ('MISSED' if rc == 0 else 'CHECK-ERROR rc=%d' % rc)
                 rows.append((name, pid, verdict, kind, round(time.time() - t0, 1)))
                 print(rows[-1], flush=True)
+                if saved is not None:
+                    with open(evp, 'w') as f:
+                        f.write(saved)
         finally:
             sh(['git', 'checkout', '--', '.'], cwd=REPO)
             sh(['git', 'clean', '-fdq'], cwd=REPO)
